@@ -30,7 +30,11 @@ def main(chk):
                        'where self.dt may be assigned; clamp guard; dump decision; nominal step in solver data; loop guard; '
                        '_get_timestep recomputes the step on every path that does not end the run.')
     t = M.py(SOL)
-    cls = M.find_class(t, 'Solver')
+    # helpers a maintainer may have extracted from the methods the rules are written against are inlined again (model.inline_helpers): the vocabulary
+    # below is what the rules refer to by name; any other private method called at statement level from these is analysed as part of its caller
+    VOCAB = ('_get_timestep', '_dump_output_if_needed', '_compute_timestep', '_damp_timestep', '_get_solver_data', '_get_undamped_timestep', '_post_stage_callback')
+    cls_raw = M.find_class(t, 'Solver')
+    cls = M.inlined_class(cls_raw, keep=set(VOCAB) | set(n_ for n_ in M.methods(cls_raw) if not n_.startswith('_')))
     solve = M.find_func(cls, 'solve')
     g = C.build_cfg(solve)
     loops = [n for n in g.nodes if n.kind == 'loop' and isinstance(n.ast, ast.While)]
@@ -215,8 +219,27 @@ def main(chk):
     vals = [compact(a.value) for a in dd]
     chk.decide('self.count%self.pfreq==0' in vals, 'dump-decision', 'every-pfreq-th-iteration', node=dn, file=SOL, func='_dump_output_if_needed',
                detail_bad='dump decisions are %s' % vals, detail_ok='count % pfreq == 0')
-    at = [a for a in dd if compact(a.value) == 'True']
-    ok = bool(at) and same(M.enclosing(at[0], (ast.If,)).test, 'numpy.any(numpy.abs(tdiff)<self._epsilon)')
+    # "a requested time has been reached" must make the dump happen: the flag set under |tdiff| < epsilon flows (through copies, `if flag: other = True`,
+    # `a = a or flag`) into the variable that guards dump_output()
+    flags, first = set(), None
+    for _ in range(6):
+        for a in ast.walk(dn):
+            if not isinstance(a, ast.Assign) or len(a.targets) != 1 or not isinstance(a.targets[0], ast.Name):
+                continue
+            nm_, v_ = a.targets[0].id, a.value
+            gi_ = M.enclosing(a, (ast.If,))
+            if isinstance(v_, ast.Constant) and v_.value is True and gi_ is not None and a in gi_.body:
+                if same(gi_.test, 'numpy.any(numpy.abs(tdiff)<self._epsilon)'):
+                    flags.add(nm_)
+                    first = first or a
+                elif isinstance(gi_.test, ast.Name) and gi_.test.id in flags:
+                    flags.add(nm_)
+            elif isinstance(v_, ast.Name) and v_.id in flags:
+                flags.add(nm_)
+            elif isinstance(v_, ast.BoolOp) and isinstance(v_.op, ast.Or) and any(isinstance(x, ast.Name) and x.id in flags for x in v_.values):
+                flags.add(nm_)
+    at = [first] if first is not None else []
+    ok = 'dump' in flags
     chk.decide(ok, 'dump-decision', 'at-requested-times', node=at[0] if at else dn, file=SOL, func='_dump_output_if_needed',
                detail_bad='output at requested times is not triggered by |tdiff| < epsilon', detail_ok='any(|tdiff| < epsilon)')
     gd = C.build_cfg(dn)
